@@ -25,9 +25,10 @@ def _emit(proc, rec):
         fh.write(json.dumps(rec) + "\n")
 
 
-def etable():
-    # multi-well energy (multiples of 4) so that chains started apart carry different energies
-    return [4 * min(abs(v + 3), abs(v - 4) + 1, 6) for v in range(WLO, WHI + 1)]
+def etable(offset=0):
+    # multi-well energy (multiples of 4) so that chains started apart carry different energies; `offset` (a multiple of 4) shifts the whole
+    # log-density by -ln2 * offset per coordinate (log-densities of large magnitude)
+    return [4 * min(abs(v + 3), abs(v - 4) + 1, 6) + offset for v in range(WLO, WHI + 1)]
 
 
 class DelayPost(TablePost):
@@ -184,7 +185,7 @@ def build_chains(a):
     if a.get("kind") == "hmc":
         _POS_MODE = "floor"
         for w, T in enumerate(a["temps"]):
-            post = FloorPost(etable(), WLO, outside=400, delay=a["delays"][w] if a.get("delays") else 0.0, jitter=a.get("jitter", 0))
+            post = FloorPost(etable(a.get("eoffset", 0)), WLO, outside=400 + a.get("eoffset", 0), delay=a["delays"][w] if a.get("delays") else 0.0, jitter=a.get("jitter", 0))
             st = np.array(starts[w], dtype=float) + 0.25
             n = len(st)
             ch = LoggedHamiltonianChain(posterior=post, grad=post.grad, start=st, epsilon=0.7, temperature=float(T),
@@ -196,7 +197,7 @@ def build_chains(a):
             chains.append(ch)
         return chains
     for w, T in enumerate(a["temps"]):
-        post = DelayPost(etable(), WLO, outside=400, delay=a["delays"][w] if a.get("delays") else 0.0,
+        post = DelayPost(etable(a.get("eoffset", 0)), WLO, outside=400 + a.get("eoffset", 0), delay=a["delays"][w] if a.get("delays") else 0.0,
                          jitter=a.get("jitter", 0))
         st = np.array(starts[w], dtype=float)
         kind = a.get("kind", "gibbs")
@@ -231,6 +232,13 @@ def run(a):
     result = {"init": init, "returned": [], "alive_after_shutdown": None, "error": None}
     pt = par.ParallelTempering(chains)
     pt.rng = MasterRng(a["seed"] + 17, a.get("force"))
+    real_pairs = pt.tight_pairs
+
+    def traced_pairs():
+        pairs = real_pairs()                 # the pairs the master proposes in this round, in the order it goes through them
+        _emit("M", {"ev": "pairs", "pairs": [[int(i) + 1, int(j) + 1] for i, j in pairs]})
+        return pairs
+    pt.tight_pairs = traced_pairs
     try:
         for cmd in a["prog"]:
             if cmd[0] == "steps":
